@@ -89,11 +89,10 @@ def events(p, names=None):
 
 
 # ---------------------------------------------------------------------------------------------- breadth first
-def byline_rows(idx, nlines=3, scenario="plain", collect=False):
+def byline_rows(idx, nlines=3, scenario="plain", collect=False, members=2):
     """scenario: 'plain' (votes + stops, no signals, no exceptions), 'skipall' (member 0 may fire skip_all),
     'abort' (a consideration may raise; handler may re-raise)"""
     fi = idx.method("CsvPaths", "next_by_line")
-    members = 2
 
     def load_objects(interp, call, recv, args, kwargs):
         interp.record_call("_load_csvpath_objects", dict(kwargs))
@@ -165,10 +164,13 @@ def byline_rows(idx, nlines=3, scenario="plain", collect=False):
     for agree in (False, True):
         it = Interp(idx, types={"self": "CsvPaths"}, unknown_calls="residual", handlers=handlers, inline_all={"CsvPaths"},
                     domains={"self._stop_all": [False], "self._fail_all": [False]})
-        store = {"cp0.stopped": False, "cp1.stopped": False, "cp0.advance_count": 0, "cp1.advance_count": 0,
-                 "self._skip_all": False, "self._advance_all": 0}
+        store = {"self._skip_all": False, "self._advance_all": 0}
+        for j in range(members):
+            store[f"cp{j}.stopped"] = False
+            store[f"cp{j}.advance_count"] = 0
         args = {"pathsname": "P", "filename": "F", "collect": collect, "if_all_agree": agree, "collect_when_not_matched": False}
         for p in it.run_all(fi, args=args, store=store):
             p.__dict__["collect"] = collect
+            p.__dict__["members"] = members
             out.append((agree, p))
     return fi, out
